@@ -203,6 +203,9 @@ structure Config where
       remembers the deferred callback that will deliver it (`process.notify`); `tickit_watch_cancel` of the watch
       cancels that deferred callback; `process_notify` clears the pointer. -/
   processLinked : Bool := false
+  /-- `on_sigpipe_readable` (the self-pipe signal fallback of tickit.c, Model/EvLoopFb.lean) hands every signal of
+      its snapshot to `tickit_evloop_invoke_sigwatches` instead of walking `t->signals` itself. -/
+  sigpipeViaInvoke : Bool := false
 deriving DecidableEq, Repr, Inhabited
 
 def Config.shipped : Config :=
@@ -211,7 +214,7 @@ def Config.shipped : Config :=
 def Config.repaired : Config :=
   { ioFlagMask := 6, timersPop := true, errnoSaved := true, pendingInit := true, reventsCleared := true,
     invokeTypeSaved := true, sigSnapshot := true, procSnapshot := true, laterCancelMarks := true,
-    processLinked := true }
+    processLinked := true, sigpipeViaInvoke := true }
 
 /-- One entry of `pollfds[]`/`pollwatches[]`.  `revents = none`: never written (uninitialised). -/
 structure PollSlot where
@@ -282,6 +285,12 @@ structure St where
   cancelReq : List Int := []
   behs : List Beh := []
   log : List Ev := []                -- events of the current operation, newest first
+  /-- the self-pipe of tickit.c's signal fallback (Model/EvLoopFb.lean; unused with the default hooks):
+      bytes written to `t->signal.pipefds[1]` and not yet read, and `t->signal.pipewatch` -/
+  pipeBytes : Nat := 0
+  pipewatch : Option Nat := none
+  /-- pipes the library has made in this process (the harness numbers their descriptors 90+2n / 91+2n) -/
+  pipesMade : Nat := 0
 deriving Repr, Inhabited
 
 namespace St
